@@ -107,6 +107,20 @@ def check_valid(mido, type_, attrs, acc, t=0, via_file=True, input_attrs=None):
                           f'len={_lenclass(exp)}',
                           f'from_bytes(bytes of {desc}) = {_short(vars(m2))}, '
                           f'original {_short(want)}', case)
+    if len(exp) < 40000:
+        for form in (bytes, bytearray, tuple):
+            try:
+                mf_ = MM.from_bytes(form(exp))
+                if vars(mf_) != dict(vars(m), time=0):
+                    acc.violation(f'from_bytes-differs/{type_}/{form.__name__}',
+                                  f'from_bytes({form.__name__} of {desc}) = '
+                                  f'{_short(vars(mf_))}', case)
+            except Exception as e:
+                acc.violation(f'from_bytes-raises/{type_}/{form.__name__}/'
+                              f'len={"<128" if len(exp) < 131 else ">=128"}/'
+                              f'{type(e).__name__}',
+                              f'from_bytes({form.__name__} of the bytes of '
+                              f'{desc}) raised {e!r}', case)
     if m2 is not None and len(exp) < 3000:
         # the decoded message is the caller's: change it, decode again
         try:
